@@ -14,10 +14,10 @@ Record case := MkCase {
 }.
 
 Definition mk (k : kind) (glob : option resolution) (rt : route_res) (method host path remote : bytes)
-           (acts : list action) (recs : list logrec) (pan : option N) (status : Z) (loc : bytes)
+           (min : option slog_level) (acts : list action) (recs : list logrec) (pan : option N) (status : Z) (loc : bytes)
            (same after : bool) (d : dispatch) (globals : list attach) (tl al : nat) : case :=
   MkCase {| e_kind := k; e_glob := glob; e_route := rt; e_method := method; e_host := host;
-            e_path := path; e_remote := remote |}
+            e_path := path; e_remote := remote; e_min := min |}
          acts
          {| o_records := recs; o_panic := pan; o_status := status; o_location := loc;
             o_same_response := same; o_after_handler := after |}
@@ -40,7 +40,7 @@ Definition model_agrees (c : case) : bool :=
 
 Definition case_spec_ok (c : case) : bool :=
   let e := c_env c in
-  spec_ok (e_kind e) (e_glob e) (e_route e) (e_method e) (e_host e) (e_path e) (e_remote e)
+  spec_ok (e_kind e) (e_glob e) (e_route e) (e_method e) (e_host e) (e_path e) (e_remote e) (e_min e)
           (thrown (c_acts c))
           (expected_records (e_kind e) (c_disp c) (c_globals c) (c_tlevel c) (c_alevel c)) (c_obs c).
 
